@@ -1095,7 +1095,7 @@ def run(ctx: Ctx) -> Result:
     ]
     env_note(res)
     cases = systematic_cases() + compiled_cases(ctx.thorough)
-    n_rand = 2500 if ctx.thorough else 300
+    n_rand = 6000 if ctx.thorough else 300
     for k in range(n_rand):
         cases.append(random_case(ctx.rng, k))
     check_circuits(ctx, res, cases)
